@@ -250,8 +250,15 @@ bool File::copy(const String& src, const String& destination, bool failIfExists)
       return false;
     if(lseek(fd, 0, SEEK_SET) < 0)
       return false;
-    // the destination is truncated only after it is known not to be the source itself
-    int dest = ::open(destination, failIfExists ? (O_CREAT | O_EXCL | O_CLOEXEC | O_WRONLY) : (O_CREAT | O_CLOEXEC | O_WRONLY), S_IRUSR | S_IWUSR | S_IRGRP | S_IROTH);
+    // the destination is truncated only after it is known not to be the source itself;
+    // opening it exclusively first tells whether this call created it
+    bool created = true;
+    int dest = ::open(destination, O_CREAT | O_EXCL | O_CLOEXEC | O_WRONLY, S_IRUSR | S_IWUSR | S_IRGRP | S_IROTH);
+    if(dest == -1 && errno == EEXIST && !failIfExists)
+    {
+      created = false;
+      dest = ::open(destination, O_CREAT | O_CLOEXEC | O_WRONLY, S_IRUSR | S_IWUSR | S_IRGRP | S_IROTH);
+    }
     if(dest == -1)
     {
       ::close(fd);
@@ -265,21 +272,26 @@ bool File::copy(const String& src, const String& destination, bool failIfExists)
       destError = EINVAL; // source and destination are the same file
     else if(ftruncate(dest, 0) != 0)
       destError = errno;
-    if(destError)
+    // one sendfile call may transfer less than asked for
+    for(off64_t left = size; !destError && left > 0;)
     {
-      ::close(fd);
-      ::close(dest);
-      errno = destError;
-      return false;
-    }
-    if(sendfile(dest, fd, 0, size) != size)
-    {
-      ::close(fd);
-      ::close(dest);
-      return false;
+      ssize_t sent = sendfile(dest, fd, 0, left);
+      if(sent < 0)
+        destError = errno;
+      else if(sent == 0)
+        destError = EIO; // the source has become shorter
+      else
+        left -= sent;
     }
     ::close(fd);
     ::close(dest);
+    if(destError)
+    {
+      if(created)
+        ::unlink(destination); // do not leave a partial file behind
+      errno = destError;
+      return false;
+    }
     return true;
 #endif
 }
